@@ -105,7 +105,7 @@ def render_manifest(sc, cmd, ctl):
         m += "  description = E%d%s\n" % (s["id"], (" " + DECOR[s["decor"]]) if s.get("decor") else "")
         if s["restat"]:
             m += "  restat = 1\n"
-        if s["gen"]:
+        if (s["gen"] and not s.get("genlvl")) or s.get("genlvl") == "cleared":
             m += "  generator = 1\n"
         if s["deps"] in ("depfile", "gcc"):
             m += "  depfile = %s.d\n" % s["outs"][0]
@@ -133,6 +133,10 @@ def render_manifest(sc, cmd, ctl):
             m += "  pool = %s\n" % s["pool"]
         if s["dd"]:
             m += "  dyndep = %s\n" % s["dd"]
+        if s["gen"] and s.get("genlvl") == "build":
+            m += "  generator = 1\n"
+        if s.get("genlvl") == "cleared":
+            m += "  generator =\n"
     return m
 
 
